@@ -50,7 +50,8 @@ ASSUMPTIONS = [
     "agreement of the numerical with the analytic Hessian 'to the accuracy of the scheme' is checked against bounds "
     "h*max|d3E| (forward) and h^2*max|d4E| (central) estimated from the analytic Hessian, on Morse/harmonic networks",
 ]
-RULE = ("streams: reorder-oracle = Species.reorder_atoms on a species carrying its analytic Hessian, every permutation of 3-4 atoms "
+RULE = ("streams: motion-oracle = Species.rotate / translate sequences (with and without frequency / mode queries in between) on a species "
+        "carrying its analytic Hessian; numerical-Hessian shifts also given in pm / nm / a0; reorder-oracle = Species.reorder_atoms on a species carrying its analytic Hessian, every permutation of 3-4 atoms "
         "(thorough: random non-involutive permutations up to 13 atoms); freq-oracle = generated molecules (2..15 atoms; linear / planar / general; mixed elements; minima and saddles of "
         "harmonic+Morse bond networks) x {rotations, translations, permutations, 5 storage units, scale factors}; numhess-oracle = "
         "Morse/harmonic mock gradient x {forward, central} x n_cores {1,2,4} + serial branch + every atom subset for the hybrid "
@@ -162,7 +163,7 @@ def make_molecule(symbols, coords, name="m"):
 def _run_calc(kind, symbols, coords, methods, idxs, cdiff, shift, n_cores, calc0=None, H0=None):
     """Run one calculator on the real code -> (calculated_rows, raw matrix, matrix returned by .hessian) or 'ValueError'."""
     mol = make_molecule(symbols, coords)
-    sh_ = Distance(shift, units="Å")
+    sh_ = Distance(shift[0], units=shift[1]) if isinstance(shift, (tuple, list)) else Distance(shift, units="Å")
     try:
         if kind == "hybrid":
             c = HybridHessianCalculator(mol, idxs=tuple(idxs), shift=sh_, lmethod=methods[0], hmethod=methods[1], n_cores=n_cores)
@@ -620,6 +621,146 @@ def oracle_reorder(ctx, fail):
                 ctx.hist("reorder-oracle", f"n={n}:not-self-inverse")
                 reorder_case(ctx, fail, symbols, X, pairs, {i: image[i] for i in range(n)}, f"reorder-{n}-{''.join(symbols)}")
 
+
+# ============================================================================================ oracle A3: rigid motions through the public API
+def kabsch(P, Q):
+    """proper rotation R and residual with Q_c ~ P_c R^T (centred coordinates)"""
+    Pc, Qc = P - P.mean(0), Q - Q.mean(0)
+    U, _, Vt = np.linalg.svd(Pc.T @ Qc)
+    d = np.sign(np.linalg.det(Vt.T @ U.T))
+    R = Vt.T @ np.diag([1.0, 1.0, d]) @ U.T
+    return R, float(np.abs(Pc @ R.T - Qc).max())
+
+
+def motion_case(ctx, fail, symbols, X, pairs, steps, label):
+    """A species carrying its analytic Hessian is moved with Species.rotate / translate; `steps` is a list of
+    ("q",) (query frequencies and all modes), ("r", axis, theta, origin) or ("t", vec).  After every motion that is
+    followed by a query (and at the end) the Hessian, frequencies and modes must be those of the CURRENT frame."""
+    n = len(symbols)
+    X = np.asarray(X, dtype=float)
+    rep = {"kind": "motion-case", "symbols": list(symbols), "coords": X.tolist(), "pairs": [list(p) for p in pairs],
+           "steps": [[st[0]] + [np.asarray(a, dtype=float).tolist() if not np.isscalar(a) and a is not None else a for a in st[1:]] for st in steps],
+           "label": label}
+    try:
+        H0 = MockNet("ref", pairs).hess(X.flatten())
+        ref = make_molecule(symbols, X)
+        ref.hessian = Hessian(H0.copy(), atoms=ref.atoms, units="Ha Å^-2")
+        f0 = floats(ref.frequencies)
+        m0 = [np.array(ref.normal_mode(i), dtype=float).flatten() for i in range(3 * n)]
+        ntr = ref.hessian.n_tr
+        numax = max(1.0, float(np.abs(f0).max()))
+        mol = make_molecule(symbols, X)
+        mol.hessian = Hessian(H0.copy(), atoms=mol.atoms, units="Ha Å^-2")
+
+        def check(done):
+            Xc = np.array(mol.coordinates, dtype=float)
+            R, res = kabsch(X, Xc)
+            tag = f"{label} after {done}"
+            if res > 1e-9:
+                fail("Species.rotate|not-rigid", f"{tag}: coordinates are not a rigid image of the original (residual {res:.2e})", rep)
+                return False
+            full = np.kron(np.eye(n), R)
+            Hc = np.array(mol.hessian, dtype=float)
+            if np.abs(Hc - full @ H0 @ full.T).max() > 1e-8:
+                fail("Species.rotate|hessian-not-rotated", f"{tag}: the stored Hessian is not R H R^T (max deviation {np.abs(Hc - full @ H0 @ full.T).max():.3e})", rep)
+                return False
+            f1 = floats(mol.frequencies)
+            if not spec_close(f1, f0)[0]:
+                fail("Species.frequencies|changed-by-rigid-motion", f"{tag}: frequencies changed: {np.sort(f0)[-3:].tolist()} -> {np.sort(f1)[-3:].tolist()}", rep)
+                return False
+            m1 = [np.array(mol.normal_mode(i), dtype=float).flatten() for i in range(3 * n)]
+            atoms = mol.atoms
+            _, _, Ttr, _ = ref_freqs(Hc, atoms)
+            V = np.array(m1[ntr:])
+            if any(np.abs(v).max() != 0.0 for v in m1[:ntr]):
+                fail("Species.normal_mode|tr-modes-nonzero", f"{tag}: the first {ntr} modes are not zero", rep)
+                return False
+            if len(V):
+                if np.abs(V @ V.T - np.eye(len(V))).max() > 1e-8:
+                    fail("Species.normal_mode|not-orthonormal", f"{tag}: modes are not orthonormal", rep)
+                    return False
+                ov = float(np.abs(V @ Ttr).max())
+                if ov > 1e-8:
+                    fail("Species.normal_mode|net-translation-rotation", f"{tag}: a mode overlaps a mass-weighted translation/rotation of the CURRENT "
+                         f"geometry by {ov:.2e} (modes of an earlier frame?)", rep)
+                    return False
+                mk = np.repeat([float(a.mass) for a in atoms], 3) * AMU_KG
+                F = (Hc * EH_J / 1e-20) / np.sqrt(np.outer(mk, mk))
+                for i in range(ntr, 3 * n):
+                    ray = m1[i] @ F @ m1[i]
+                    nu = np.sign(ray) * math.sqrt(abs(ray)) / (2 * math.pi * C_CM)
+                    if abs(nu - f1[i]) > 1e-6 * max(abs(f1[i]), 1.0) + 2e-7 * numax:
+                        fail("Species.normal_mode|not-eigenvector-of-current-hessian", f"{tag}: mode {i} has Rayleigh wavenumber {float(nu)!r} in the current "
+                             f"frame but frequency {float(f1[i])!r}", rep)
+                        return False
+                    lo = abs(f0[i] - f0[i - 1]) if i > ntr else np.inf
+                    hi = abs(f0[i + 1] - f0[i]) if i + 1 < 3 * n else np.inf
+                    if min(lo, hi) < 1e-3 * numax or abs(f0[i]) < 1e-3 * numax:
+                        ctx.hist("motion-oracle", "mode-skipped(degenerate)")
+                        continue
+                    if abs(abs((full @ m0[i]) @ m1[i]) - 1.0) > 1e-6:
+                        fail("Species.normal_mode|not-co-rotated", f"{tag}: mode {i} is not R.(original mode): |overlap| = {abs((full @ m0[i]) @ m1[i])!r}", rep)
+                        return False
+            return True
+
+        done = []
+        moved = False
+        for st in steps:
+            if st[0] == "q":
+                if moved:
+                    if not check("; ".join(done)):
+                        return
+                else:
+                    _ = mol.frequencies, [mol.normal_mode(i) for i in range(3 * n)]
+                done.append("query")
+            elif st[0] == "r":
+                mol.rotate(axis=np.array(st[1], dtype=float), theta=float(st[2]), origin=None if st[3] is None else np.array(st[3], dtype=float))
+                done.append(f"rotate(axis={list(st[1])}, theta={st[2]}, origin={None if st[3] is None else list(st[3])})")
+                moved = True
+            else:
+                mol.translate(vec=np.array(st[1], dtype=float))
+                done.append(f"translate({list(st[1])})")
+                moved = True
+        check("; ".join(done))
+    except Exception as e:  # noqa
+        fail(f"Species.rotate|exception:{type(e).__name__}", f"{label}: the motion sequence raised {type(e).__name__}: {str(e)[:200]}", rep)
+
+
+def oracle_motions(ctx, fail):
+    rng = ctx.rng
+
+    def rot():
+        ax = [rng.randint(-4, 4) for _ in range(3)]
+        if not any(ax):
+            ax = [1, 2, -1]
+        org = None if rng.random() < 0.5 else [rng.randint(-16, 16) / 8 for _ in range(3)]
+        return ("r", ax, rng.choice([0.5, 1.25, 2.0, -0.75, 3.0]), org)
+
+    def tr():
+        return ("t", [rng.randint(-24, 24) / 8 for _ in range(3)])
+
+    plans = [(3, "general", False), (4, "general", True), (5, "planar", False)] + ([] if ctx.quick else [(6, "general", True), (8, "general", False), (4, "planar", True)])
+    for (n, shp, saddle) in plans:
+        X = gen_geometry(rng, n, shp)
+        symbols = rng.sample(ELEMENTS, n)
+        pairs = gen_network(rng, X, stationary=True, saddle=saddle)
+        seqs = {
+            "query,rotate": [("q",), rot()],
+            "rotate": [rot()],
+            "query,translate,query,rotate,query,rotate": [("q",), tr(), ("q",), rot(), ("q",), rot()],
+            "rotate,translate,rotate(no queries)": [rot(), tr(), rot()],
+            "rotate,query,translate,rotate": [rot(), ("q",), tr(), rot()],
+            "query,rotate,rotate,translate": [("q",), rot(), rot(), tr()],
+        }
+        if not ctx.quick:
+            for k in range(4):
+                seqs[f"random{k}"] = [rng.choice([("q",), rot(), tr(), rot()]) for _ in range(rng.randint(3, 7))]
+        for name, steps in seqs.items():
+            ctx.count("motion-oracle", (n, shp, name, repr(steps)), nontrivial=any(st[0] == "r" for st in steps),
+                      sample={"n_atoms": n, "sequence": name})
+            ctx.hist("motion-oracle", name if not name.startswith("random") else "random")
+            motion_case(ctx, fail, symbols, X, pairs, steps, f"motion-{n}-{''.join(symbols)}[{name}]")
+
 # ============================================================================================ oracle B: numerical Hessians
 def fd_bounds(net, x, h):
     """max |d3E| and |d4E| relevant to the rows, from finite differences of the ANALYTIC Hessian."""
@@ -632,6 +773,49 @@ def fd_bounds(net, x, h):
         t3 = max(t3, np.abs((Hp[r] - Hm[r]) / 2e-3).max())
         t4 = max(t4, np.abs((Hp[r] - 2 * H0[r] + Hm[r]) / 1e-6).max())
     return 0.75 * h * t3 + 1e-9, 0.25 * h * h * t4 + 1e-8
+
+
+def shift_units_oracle(ctx, fail, n, symbols, X, x, lo, hi, Hl, Hh):
+    from autode.units import a0 as _a0
+    for (val_, unit) in ((0.1, "pm"), (1e-4, "nm"), (0.002, "a0")):
+        hA = float(Distance(val_, units=unit).to("Å"))
+        bf, bc = fd_bounds(hi, x, hA)
+        for cdiff in (False, True):
+            ctx.count("numhess-oracle", ("shift-unit", n, unit, cdiff), nontrivial=True, sample={"n_atoms": n, "shift": [val_, unit], "central": cdiff})
+            ctx.hist("numhess-oracle", f"shift-unit:{unit}")
+            rep = numhess_replay(symbols, X, [hi], scheme="central" if cdiff else "forward", shift=[val_, unit], n_cores=1)
+            res = safe_calc(fail, ("full", symbols, X, [hi], (), cdiff, (val_, unit), 1), rep, f"{n} atoms, shift {val_} {unit}")
+            if res is None or res == "ValueError":
+                continue
+            rows, raw, sym = res
+            bound = bc if cdiff else bf
+            if np.abs(raw - Hh).max() > bound:
+                ratio = float(np.abs(raw).max() / np.abs(Hh).max())
+                fail("NumericalHessianCalculator|shift-unit", f"{n} atoms, {'central' if cdiff else 'forward'} differences with shift = {val_} {unit} (= {hA:.6g} A): the Hessian "
+                     f"deviates from the analytic one by {np.abs(raw - Hh).max():.3e} > {bound:.3e} (it is scaled by about {ratio:.4g})", rep)
+        sub = (0,)
+        rep = numhess_replay(symbols, X, [lo, hi], hybrid_idxs=list(sub), shift=[val_, unit], n_cores=1)
+        ctx.count("numhess-oracle", ("shift-unit-hybrid", n, unit), nontrivial=True)
+        res = safe_calc(fail, ("hybrid", symbols, X, [lo, hi], sub, False, (val_, unit), 1), rep, f"{n} atoms hybrid, shift {val_} {unit}")
+        if res not in (None, "ValueError"):
+            rows, raw, sym = res
+            hr = [0, 1, 2]
+            want = np.where(np.isin(np.arange(3 * n), hr)[:, None], Hh, Hl)
+            if np.abs(raw - want).max() > bf:
+                fail("HybridHessianCalculator|shift-unit", f"{n} atoms, idxs=(0,), shift = {val_} {unit}: raw rows deviate from the analytic high/low rows by "
+                     f"{np.abs(raw - want).max():.3e} > {bf:.3e}", rep)
+        try:
+            mol = make_molecule(symbols, X)
+            ctx.count("numhess-oracle", ("shift-unit-calc_hessian", n, unit), nontrivial=True)
+            mol.calc_hessian(method=hi, numerical=True, use_central_differences=True, coordinate_shift=Distance(val_, units=unit), n_cores=1)
+            Hs = np.array(mol.hessian, dtype=float)
+            if np.abs(Hs - Hh).max() > bc:
+                fail("Species.calc_hessian|shift-unit", f"{n} atoms: calc_hessian(numerical=True, coordinate_shift=Distance({val_}, '{unit}')) deviates from the "
+                     f"analytic Hessian by {np.abs(Hs - Hh).max():.3e} > {bc:.3e}",
+                     numhess_replay(symbols, X, [hi], entry="Species.calc_hessian", scheme="central", shift=[val_, unit], n_cores=1))
+        except Exception as e:  # noqa
+            fail(f"Species.calc_hessian|exception:{type(e).__name__}", f"{n} atoms, coordinate_shift in {unit}: {type(e).__name__}: {str(e)[:200]}",
+                 numhess_replay(symbols, X, [hi], entry="Species.calc_hessian", shift=[val_, unit]))
 
 
 def numhess_replay(symbols, X, nets, **kw):
@@ -683,6 +867,9 @@ def oracle_numhess(ctx, fail):
             if errs[(True, "cores1")] >= errs[(False, "cores1")] and errs[(False, "cores1")] != float("inf"):
                 fail("NumericalHessianCalculator|central-not-more-accurate", f"{n} atoms: central differences error {errs[(True, 'cores1')]:.3e} >= forward {errs[(False, 'cores1')]:.3e}",
                      numhess_replay(symbols, X, [hi], shift=h))
+            # the shift given as a Distance in another unit (0.1 pm = 1e-4 nm = 1e-3 A; 0.002 a0)
+            if n <= 3:
+                shift_units_oracle(ctx, fail, n, symbols, X, x, lo, hi, Hl, Hh)
             # hybrid: every subset of atoms
             subsets = [s for k in range(n + 1) for s in itertools.combinations(range(n), k)]
             for si, sub in enumerate(subsets):
@@ -984,6 +1171,7 @@ def _run(ctx, full):
     # 4. implementation-side oracles (always run: they give the concrete replays)
     oracle_frequencies(ctx, fail)
     oracle_reorder(ctx, fail)
+    oracle_motions(ctx, fail)
     ctx.log(f"frequency / mode / relabelling oracles: {fail.n} failures")
     n1 = fail.n
     oracle_numhess(ctx, fail)
@@ -1027,17 +1215,22 @@ def replay(ctx, obj):
     elif kind == "reorder-case":
         reorder_case(ctx, fail, rep["symbols"], np.array(rep["coords"]), [tuple(p) for p in rep["pairs"]],
                      {int(k): int(v) for k, v in rep["mapping"].items()}, rep.get("label", "replay"))
+    elif kind == "motion-case":
+        steps = [tuple(st) for st in rep["steps"]]
+        motion_case(ctx, fail, rep["symbols"], np.array(rep["coords"]), [tuple(p) for p in rep["pairs"]], steps, rep.get("label", "replay"))
     elif kind == "numhess-case":
         X, sy = np.array(rep["coords"]), rep["symbols"]
         nets = [MockNet(f"mock{i}", [tuple(p) for p in ps]) for i, ps in enumerate(rep["pairs"])]
         h, nc = rep.get("shift", 1e-3), rep.get("n_cores", 1)
+        hA = float(Distance(h[0], units=h[1]).to("Å")) if isinstance(h, (list, tuple)) else h
+        h = tuple(h) if isinstance(h, list) else h
         if "hybrid_idxs" in rep:
             rows, raw, sym = run_calc(("hybrid", sy, X, nets, rep["hybrid_idxs"], False, h, nc))
             x = X.flatten()
             Hl, Hh = nets[0].hess(x), nets[1].hess(x)
             hr = [3 * a + k for a in rep["hybrid_idxs"] for k in range(3)]
             want = np.where(np.isin(np.arange(len(x)), hr)[:, None], Hh, Hl)
-            bf, _ = fd_bounds(nets[1], x, h)
+            bf, _ = fd_bounds(nets[1], x, hA)
             print("replay: raw rows max deviation from (high rows | low rows):", np.abs(raw - want).max(), "bound", bf)
             lr = [r for r in range(len(x)) if r not in hr]
             if hr and lr:
@@ -1049,7 +1242,7 @@ def replay(ctx, obj):
             cd = rep.get("scheme") == "central"
             rows, raw, sym = run_calc(("full", sy, X, nets[:1], (), cd, h, nc), in_child=bool(rep.get("serial_child")))
             Hh = nets[0].hess(X.flatten())
-            bf, bc = fd_bounds(nets[0], X.flatten(), h)
+            bf, bc = fd_bounds(nets[0], X.flatten(), hA)
             print("replay: max deviation from the analytic Hessian", np.abs(raw - Hh).max(), "bound", bc if cd else bf, "rows", rows)
             if np.abs(raw - Hh).max() > (bc if cd else bf) or not np.array_equal(sym, sym.T):
                 fail.n += 1
